@@ -1661,8 +1661,8 @@ def gen_hist_enum(chk):
                 plans.append((si, ri, True, 3))
                 if (ri - si) % 3 == 0:
                     plans.append((si, ri, False, 4))
-            elif (ri - si) % 3 == 0:                       # quick: 2 registries per store, small alphabet
-                plans.append((si, ri, False, 3))
+            else:                                          # quick: small alphabet, one registry per store to length 3
+                plans.append((si, ri, False, 3 if ri == (0, 1, 3)[si] else 2))
     out, k = [], 0
     for si, ri, full, L in plans:
         name, store, queries, adds = H_STORES[si]
@@ -1693,7 +1693,7 @@ def gen_hist_random(chk):
     store, contexts on which predicates are true / false / raise, clock scripts, batches with repeats."""
     rng = chk.rng
     out = []
-    for _ in range(1200 if chk.tier == "quick" else 20000):
+    for _ in range(800 if chk.tier == "quick" else 20000):
         store, rules, _reg, queries = gen_layered(rng)
         for t in store:
             if t[3] is None and rng.random() < 0.3:
@@ -1833,7 +1833,8 @@ def run(chk):
                 "batches with repeated triples. non-trivial = the search visited >= 2 nodes or answered true (batch: "
                 "a triple is repeated); distinct = distinct (group content, query, limits). Histories (one evaluation = "
                 "one check/batch_check call of a history, compared with a fresh checker over a fresh store and with the "
-                "model): every sequence of <= 3 ops (thorough: larger alphabet, and <= 4 ops) ending in a call over "
+                "model): every sequence of <= 3 ops (quick: <= 2 ops for 15 of the 18 store x registry pairs; thorough: "
+                "larger alphabet and a second checker, and <= 4 ops for 6 pairs) ending in a call over "
                 "{check, batch_check} x 3 queries x 4 contexts (None, {}, predicate true, predicate false) + 3 store "
                 "additions (caveated / same triple other caveat / plain duplicate), for 3 stores whose caveated direct "
                 "tuples and caveated parent edges share caveat names x registries of context-reading predicates "
